@@ -7,10 +7,10 @@ NOTE_COMMON = ("Trusted base: TLC 1.8 and the TLA+ specifications in /verif/spec
                "results hold within the stated bounds and on the validated traces only.")
 CHECKS = {
  "C05": dict(tech="TLC model checking of Lexer.tla (Tiling, LineColDecl, Total) over all class strings; every behaviour replayed into tokenize_program; recorded token streams validated by LexerTrace.tla",
-             text="Exhaustive within bounds: every character-class string up to length 4 (quick) / 5-6 (thorough) over four alphabets is lexed by the specification and by the implementation and compared lexeme by lexeme (span, kind, line, column); token streams of repository sources, their trivia / invalid-character / truncation mutants, token soup and random bytes are validated as behaviours of the position machine by TLC.",
+             text="Exhaustive within bounds: every character-class string up to length 4 (quick) / 5-6 (thorough) over four alphabets is lexed by the specification and by the implementation and compared lexeme by lexeme (span, kind, line, column); token streams of repository sources, their trivia / invalid-character / truncation mutants (incl. OSCAT headers with LF and CRLF), token soup and random bytes are validated as behaviours of the position machine by TLC. Identifier spans of every Grammar.tla derivation, byte labels and published LSP ranges of every single-fault unit of Unit.tla (re-laid-out with multi-byte comments) against LabelTargets, syntax / lexical error labels of token mutants, and the terminal's line:col of check / echo / tokenize on the faulty files.",
              ref="DESIGN.md 3.1, 5/C05"),
  "C11": dict(tech="TLC model checking of Lsp.tla (CacheCoherent, PublishExactlyOnce); all notification histories enumerated by TLC and replayed into fresh `ironplcc lsp --stdio` processes against a fresh-server diagnostics table; CLI equality per document state; random long histories validated by LspTrace.tla",
-             text="Exhaustive within bounds: every didOpen/didChange history up to length 3 (quick) / 4 (thorough) over 2 URIs x 5 texts is executed on the real server and compared frame by frame with the publishes the specification requires (document, version, content = function of the current document state as measured on fresh servers); the same contents are checked with `ironplcc check`; random histories up to length 40 are validated as behaviours of the specification by TLC.",
+             text="Exhaustive within bounds: every didOpen/didChange history up to length 3 (quick) / 4 (thorough) over 2 URIs x 5 texts is executed on the real server and compared frame by frame with the publishes the specification requires (document, version, content = function of the current document state as measured on fresh servers); the same contents are checked with `ironplcc check`; random histories up to length 40 are validated as behaviours of the specification by TLC. Workspace start-up (Boot action: every content of the workspace folder x histories up to length 2) and the positions clause (every single-fault unit of Unit.tla in random layouts: server and check report the same code, line, column).",
              ref="DESIGN.md 3.6, 5/C11"),
  "C12": dict(tech="TLC model checking of Lsp.tla safety + liveness (EventuallyAnswered under WF); all message sequences up to length 3 replayed into the real server; random interleavings up to length 60 validated by LspTrace.tla",
              text="Exhaustive within bounds over the message alphabet of the property (didOpen, didChange with 0/1/2 changes, semantic-token and unknown requests, unknown notifications, client responses, unopened and non-file URIs), each sequence closed by shutdown and exit: replies, their ids, their order and the exit status must be exactly the specification's reply queue.",
@@ -22,14 +22,14 @@ CHECKS = {
              text="Exhaustive within bounds: every argument sequence up to length 2 (quick) / 3 (thorough) over 7 files of all classes, 6 directories (incl. empty, with unreadable entry) and a missing path, for check / echo / tokenize, is executed; exit status, OK line and the set of (code, file) must equal the observation computed by the specification; directory vs file list, argument order and repetition are compared run against run.",
              ref="DESIGN.md 3.7, 5/C13"),
  "C14": dict(tech="TLC model checking of Cli.tla ReadDecode/EncodingTransparent over all encoding assignments; each replayed on a disk written in those encodings; exhaustive byte sweep in four lexical contexts; random binary files",
-             text="Exhaustive within bounds: all 125 assignments of {UTF-8, UTF-8+BOM, UTF-16LE/BE+BOM, Windows-1252} to three files carrying non-ASCII text before a planted fault; verdict, codes and line:col must equal the specification's (encoding-free) observation and each other. Every byte value 0x00-0xFF in a comment, a string, between tokens and inside an identifier, plus random binary files: no crash, contract holds, positions inside the decoded text, neutral characters keep the verdict.",
+             text="Exhaustive within bounds: all 125 assignments of {UTF-8, UTF-8+BOM, UTF-16LE/BE+BOM, Windows-1252} to three files carrying non-ASCII text before a planted fault; verdict, codes and line:col must equal the specification's (encoding-free) observation and each other. Every byte value 0x00-0xFF in a comment, a string, between tokens and inside an identifier, plus random binary files: no crash, contract holds, positions inside the decoded text, neutral characters keep the verdict. Size clause: the same faulty program padded so that a run of 2-, 3- and 4-byte characters crosses byte offsets 512 ... 8192 (thorough: 256 ... 65536) at eight alignments in all five encodings.",
              ref="DESIGN.md 3.7, 5/C14",
              note="Encoders are Python codecs (trusted)."),
  "C01": dict(tech="TLC model checking of Grammar.tla (derivation machine over the Annex-B reference grammar: OneValue, NothingDropped, Terminates, PrecedenceShape); every derivation replayed into parse_program and the projected library compared with the abstract syntax computed by the specification",
              text="Exhaustive within bounds: every derivation of the reference grammar per area (expressions, statements, TYPE forms, VAR blocks x qualifiers x initialisers, FUNCTION / FUNCTION_BLOCK / PROGRAM, SFC, CONFIGURATION, libraries) within the fuel bound is enumerated by TLC together with the abstract syntax it denotes (precedence and associativity by construction of the stratified grammar); each is spelled canonically and with random layout, parsed, projected and compared node by node.",
              ref="DESIGN.md 3.2, 5/C01"),
  "C04": dict(tech="Grammar.tla corpus -> token-level mutants, token sequences, nesting shapes, extreme literals (+ seeded soup / bytes) run through lex, parse, analyse, render under catch_unwind with a CPU-time budget, and through the ironplcc binary",
-             text="The specification supplies the structured input space (derivations, their single-token mutants, token-class sequences, literal positions); the check runs every stage in-process under catch_unwind on an 8 MiB stack with a CPU-time budget and a sample through the real binary; a panic, abort, stack overflow or exceeded budget is a violation.",
+             text="The specification supplies the structured input space (derivations, their single-token mutants, token-class sequences, literal positions); the check runs every stage in-process under catch_unwind on an 8 MiB stack with a CPU-time budget and a sample through the real binary; a panic, abort, stack overflow or exceeded budget is a violation. Also: every literal of Literal.tla in three contexts, and long lexemes (40 - 5000 bytes, multi-byte characters at every alignment) alone, next to every token class and in place of every token of the small derivations.",
              ref="DESIGN.md 5/C04", note="'Arbitrary bytes' is a seeded random sample, not an enumeration."),
  "C08": dict(tech="relational replay of the Grammar.tla corpus: canonical vs re-spelled text (single-site keyword case, all-site random case and trivia, END_IF without semicolon) must project to the same library and the same analysis codes",
              text="Every keyword / literal prefix / duration unit of the corpus is varied alone (lower, upper, mixed case); every derivation is re-spelled at all sites with random case per keyword and identifier occurrence and random trivia (blanks, tabs, LF, CRLF, FF, single- and multi-line, nested-looking, non-ASCII comments) at every inter-token position; END_IF is written without its semicolon.",
@@ -83,7 +83,7 @@ def main():
             "guard": "ironplc_verif",
             "enable": "RUSTFLAGS='--cfg ironplc_verif' (set by /verif/harness/.cargo/config.toml and drivers/vlib.py build())",
             "baseline_off_cmd": "cd /repo/compiler && cargo test --workspace --no-fail-fast --offline",
-            "source_commits": ["6db0167ffadc87bed3adf33419fbc2f349b81482"],
+            "source_commits": ["6db0167ffadc87bed3adf33419fbc2f349b81482", "fe2b4cca6ce84d95db1ae1f73b007300ac0cf8f4"],
             "add_only": True,
         },
         "engines": [
@@ -93,8 +93,8 @@ def main():
         "checks": checks,
         "not_applicable": na,
         "notes": ("All properties are observed through public interfaces (parse_program, tokenize_program, stages::analyze, Project, write_to_string, the ironplcc binary over argv/stdio). "
-                  "One source hook exists (commit 6db0167): under --cfg ironplc_verif the Debug output of dsl::common::AddressAssignment also prints the address components, "
-                  "which the harness needs to compare direct addresses (C09/C01); with the guard off the original impl is compiled unchanged. "
+                  "Two source hooks exist. Commit 6db0167: under --cfg ironplc_verif the Debug output of dsl::common::AddressAssignment also prints the address components, "
+                  "which the harness needs to compare direct addresses (C09/C01); with the guard off the original impl is compiled unchanged. Commit fe2b4cc: analyzer/src/stages.rs records, under the same guard, the declarations each stage sees and the problem codes it produces (thread local list, drained by the harness) for trace validation by PipelineTrace.tla; with the guard off the original loops are compiled unchanged. "
                   "Repairs of genuine defects are the unguarded 'fix:' commits listed in known_findings.json (fixed); open defects are listed there under findings. "
                   "drivers/seeded.py + seeded/ hold the seeded changes used to test the checks (never applied to /repo outside a test run)."),
     }
